@@ -173,7 +173,8 @@ def child(case):
         H = orc.height
         allh = orc.headers()
 
-        async def headers_case(start, count, cp, cap):
+        async def headers_case(start, count, cp, cap, H=None):
+            H = orc.height if H is None else H
             r = await cl.call('blockchain.block.headers', [start, count, cp], vtimeout=600)
             out['evaluations'] += 1
             bump('headers_requests')
@@ -217,6 +218,22 @@ def child(case):
                         await headers_case(start, count, rng.choice((0, 0, H)), cap)
         finally:
             cls.MAX_CHUNK_SIZE = orig_cap
+        # requests that cross the chain end while the header file still holds orphaned headers beyond the tip: the window
+        # of a forced reorg between its back-ups and its re-advance, held open by a daemon that answers slowly
+        stall = {'on': True}
+        srv.sim.script = lambda info: ({'latency': 40} if stall['on'] else None)
+        rpc = srv.client(rpc=True)
+        await rpc.call('reorg', [3], vtimeout=60)
+        await rpc.close()
+        if await srv.wait_until(lambda: srv.db.state.height == H - 3, 200):
+            bump('reorg_windows_opened')
+            for start in (H - 8, H - 5, H - 4, H - 3, H - 2, H):
+                for count in (1, 2, 4, 6, 12):
+                    await headers_case(start, count, 0, CAP, H=H - 3)
+                    bump('headers_requests_in_reorg_window')
+        stall['on'] = False
+        if not await srv.wait_caught_up(900):
+            out['inconclusive'].append('no catch-up after the forced reorg')
         exc = srv.check_task()
         if exc:
             viol('server-task/exception', exc.strip().splitlines()[-1][:200], exc)
@@ -241,7 +258,7 @@ def run(tier, seed, replay=None):
     c = rep.counters
     for name, minimum in {'history_requests': 50, 'histories_answered_in_full': 15, 'histories_refused_too_large': 15, 'refused_cached': 8,
                           'subscriptions_refused': 8, 'subscriptions_accepted': 8, 'over_limit_subscriptions_dropped': 8,
-                          'headers_requests': 2000, 'headers_refused_bad_checkpoint': 20}.items():
+                          'headers_requests': 2000, 'headers_refused_bad_checkpoint': 20, 'headers_requests_in_reorg_window': 100}.items():
         rep.floor(name, c[name], minimum)
     return rep.finish(
         rule='per MAX_SEND setting (350000, 350064, 350163 -> derived limits 3535/3536/3537; 400000; one below the 350000 floor) a chain '
@@ -251,6 +268,8 @@ def run(tier, seed, replay=None):
              '(exactly at the limit either outcome is accepted, but never a prefix); then the two scripts just below the limit grow '
              'past it while subscribed: only null statuses may be notified and the subscriptions must be dropped. Headers: '
              '(start,count,cp_height) triples around genesis, the 2016 cap and the chain end, plus dense sweeps with the cap lowered '
-             'to 1/2/7 through the class attribute: count == min(requested, max, available), hex length, bytes, max. distinct = '
+             'to 1/2/7 through the class attribute, and requests crossing the chain end inside the window of a forced reorg (blocks undone, '
+             're-advance held back by a slow daemon: the header file holds orphaned headers beyond the tip): count == min(requested, max, '
+             'available), hex length, bytes, max. distinct = '
              '(MAX_SEND, length - limit, fresh/cached) + (cap, start - height, count - cap, cp given)',
         assumptions=['a history of exactly `limit` entries may be answered either way', 'merkle proofs in header replies are judged by C11'])
